@@ -481,22 +481,24 @@ def memberRef (T : Tab) (pkg : String) : List String → Option FnRef
   | [p, a, b] => traitOrTypeMember T (qual p a) b
   | _ => none
 
-/-- meaning of a path in expression position.  Constructors come first
-    (`name_resolution.rs::resolve_expr`, `EPath`), then locals (innermost binder), then the
+/-- meaning of a path in expression position.  A bare name means its innermost local binder
+    whatever it is spelled like (lexical scoping; `name_resolution.rs::resolve_expr`, `EPath`:
+    `is_local_name` is asked before `constructor_path_for`), then constructors, then the
     package's own functions, then builtins. -/
 def evalPath (T : Tab) (ctx : Ctx) (ρ : Env) (segs : List String) : Except Fail Val :=
+  let localV : Option Val := match segs with | [x] => lookupEnv ρ x | _ => none
+  match localV with
+  | some v => .ok v
+  | none =>
   match T.enumCtor ctx.pkg segs with
   | some (ty, idx, 0) => .ok (.enumV ty idx [])
   | some (ty, idx, n) => .ok (.fn (.ctor ty idx n))
   | none =>
     match segs with
     | [x] =>
-      match lookupEnv ρ x with
-      | some v => .ok v
-      | none =>
-        match globalRef T ctx.pkg x with
-        | some r => .ok (.fn r)
-        | none => .error (.stuck ("unresolved name " ++ x))
+      match globalRef T ctx.pkg x with
+      | some r => .ok (.fn r)
+      | none => .error (.stuck ("unresolved name " ++ x))
     | _ =>
       match memberRef T ctx.pkg segs with
       | some r => .ok (.fn r)
@@ -600,6 +602,12 @@ def eval (fuel : Nat) (T : Tab) (ctx : Ctx) (ρ : Env) (w : World) (e : Expr) : 
     match evalList fuel T ctx ρ w args with
     | .fail f w => .fail f w
     | .ok vs w =>
+      -- the lowering's classification is not taken on trust: a bare name with a local binder in
+      -- scope means that binder (applied to the arguments, if any are written), however the node is tagged
+      let localV : Option Val := match path with | [x] => lookupEnv ρ x | _ => none
+      match localV with
+      | some fv => if vs.isEmpty then .ok fv w else apply fuel T w fv vs
+      | none =>
       match T.enumCtor ctx.pkg path with
       | some (ty, idx, n) =>
         if n == vs.length then .ok (.enumV ty idx vs) w else .fail (.stuck "constructor arity") w
